@@ -828,7 +828,11 @@ func ExecIsolated(self, id, item string, limit time.Duration) (sig, detail, died
 			}
 		}
 		if err != nil {
-			return "", "", firstFatalLine(o), false
+			d := firstFatalLine(o)
+			if strings.TrimSpace(d) == "" {
+				d = "the process ended without a result: " + err.Error()
+			}
+			return "", "", d, false
 		}
 		return "harness:no-result", clip(o, 300), "", false
 	case <-time.After(limit):
